@@ -4,9 +4,15 @@ Both checks enumerate a finite domain exhaustively (no sampling) and compare the
 functions with independent references written in this file:
 
 * bounded_dataset_derivations: a per-individual, chronological walk over the event records
-  (property C14, functions of src/pharmpy/modeling/data.py)
+  (property C14, functions of src/pharmpy/modeling/data.py); every derivation is also held to
+  the frame "the input model's dataset is not modified" (property C06), on datasets with
+  numeric TIME as well as with NM-TRAN clock TIME and DATE columns
 * bounded_dataset_reading: a reference NM-TRAN reader written from docs/NONMEM.rst
-  (property C13, src/pharmpy/model/external/nonmem/dataset.py, modeling/write_csv.py)
+  (property C13, src/pharmpy/model/external/nonmem/dataset.py, modeling/write_csv.py) and the
+  write/read cycles of datasets through generated model code
+
+Every entry of 'fails' carries 'also': all failing cases of its (fid, clause) key in
+enumeration order (capped), see tools/BOUNDED_GUIDE.md.
 
 The results are labelled "bounded"; nothing here is a proof.
 """
@@ -298,22 +304,30 @@ def _build_di(df, idname, schema=None):
     return _DI_CACHE[key]
 
 
+_UNITLESS = []
+
+
 def _build_di_uncached(df, idname, sch):
     from pharmpy.model import ColumnInfo, DataInfo
 
+    if not _UNITLESS:
+        # the default unit of a column; built once because its construction is slow
+        _UNITLESS.append(ColumnInfo.create('X').unit)
+    u = _UNITLESS[0]
     cols = []
     for c in df.columns:
         if c == idname:
-            cols.append(ColumnInfo.create(c, type='id', datatype='int32'))
+            cols.append(ColumnInfo.create(c, type='id', datatype='int32', unit=u))
         elif c == 'TIME' and sch.get('timefmt'):
-            cols.append(ColumnInfo.create(c, type='idv', scale='ratio', datatype='nmtran-time'))
+            cols.append(ColumnInfo.create(c, type='idv', scale='ratio', datatype='nmtran-time',
+                                          unit=u))
         elif c == sch.get('datecol'):
-            cols.append(ColumnInfo.create(c, scale='interval', datatype='nmtran-date'))
+            cols.append(ColumnInfo.create(c, scale='interval', datatype='nmtran-date', unit=u))
         elif c.startswith('CV'):
-            cols.append(ColumnInfo.create(c, type='covariate', datatype='float64'))
+            cols.append(ColumnInfo.create(c, type='covariate', datatype='float64', unit=u))
         else:
             tp, dt = COLTYPES[c]
-            cols.append(ColumnInfo.create(c, type=tp, datatype=dt))
+            cols.append(ColumnInfo.create(c, type=tp, datatype=dt, unit=u))
     return DataInfo.create(cols)
 
 
@@ -706,7 +720,7 @@ def _check_case(case):
         for i in obsrows:
             counts[recs[i]['idval']] += 1
         ok = isinstance(res, pd.Series)
-        why = f'not a Series: {res!r}'
+        why = '' if ok else f'not a Series: {res!r}'
         if ok:
             got = {k: int(v) for k, v in res.items()}
             # an individual without observations may be absent or counted as 0
@@ -745,7 +759,7 @@ def _check_case(case):
     res, err = _call(ctx, 'get_doseid', df0, di)
     if err is None and res is not None:
         ok = isinstance(res, pd.Series)
-        why = f'not a Series: {res!r}'
+        why = '' if ok else f'not a Series: {res!r}'
         if ok:
             got = _flist(res.tolist())
             ok = len(got) == n and all(g in [float(a) for a in allowed]
@@ -851,7 +865,7 @@ def _check_case(case):
                     firsts.append(r['row'])
             other = [c for c in dfc.columns if c != idname]
             ok = isinstance(res, pd.DataFrame)
-            why = f'not a DataFrame: {res!r}'
+            why = '' if ok else f'not a DataFrame: {res!r}'
             if ok:
                 # result is indexed by individual; rows compared by id value
                 exp_map = {int(dfc[idname][i]): _flist(dfc.loc[i, other].tolist()) for i in firsts}
@@ -1193,16 +1207,18 @@ def _enumerate_cases(tier):
     ids (3,7) and, when both have one record, also (7,3).  thorough: one more record.
     The amounts of the dose records alternate 100 / 0.5 with the position of the record in the
     file; quick: the one-individual datasets with <=2 records also with amounts 0.5 / 0.25 only,
-    thorough: every dataset also with amounts 0.5 / 0.25 only and 100 / 50 only."""
+    thorough: every dataset with <=3 records also with amounts 0.5 / 0.25 only and 100 / 50
+    only."""
     thorough = tier == 'thorough'
     for case in _enumerate_shapes(tier):
         case['amts'] = list(BASE_AMTS)
         yield case
         if not _has_dose(case):
             continue
-        if thorough or (len(case['ids']) == 1 and _case_size(case) <= 2):
+        size = _case_size(case)
+        if (thorough and size <= 3) or (len(case['ids']) == 1 and size <= 2):
             yield dict(case, amts=list(FRAC_AMTS))
-        if thorough:
+        if thorough and size <= 3:
             yield dict(case, amts=list(WHOLE_AMTS))
 
 
@@ -1333,7 +1349,7 @@ def bounded_dataset_derivations(tier='quick'):
         'to the first record (one covariate column per pattern, e.g. 0,0,1 / 0,1,0 / 0,1,1)'
         % (nsch, ' (DATE, DAT1, DAT2, DAT3)' if extra else '', 3 + extra, 2 + extra,
            2 + extra, 3 + extra,
-           'every dataset also with 0.5 / 0.25 only and with 100 / 50 only' if extra else
+           'datasets with <=3 records also with 0.5 / 0.25 only and with 100 / 50 only' if extra else
            'one-individual datasets with <=2 records also with amounts 0.5 / 0.25 only')
     )
     samples = [repr(cases[i])[:200] for i in (0, len(cases) // 2, len(cases) - 1)]
@@ -1372,7 +1388,13 @@ def bounded_dataset_derivations_replay(rp):
 #   - empty lines (only spaces and TABs) are an error
 #   - comment lines: default ^#, IGNORE=c -> ^c, IGNORE=@ -> ^\s*[a-zA-Z#]
 #   - IGNORE/ACCEPT are applied one at a time in the order given, before the items are checked;
-#     .EQ./.NE. (== = /=) compare text, .EQN. .NEN. .LT. .GT. .LE. .GE. (< > <= >=) numbers
+#     .EQ./.NE. (== = /=) compare text, .EQN. .NEN. .LT. .GT. .LE. .GE. (< > <= >=) numbers;
+#     for a numeric operator "the column will be parsed before ignore and give errors
+#     appropriately": the items of the filter column go through the item rules (NULL value, 24
+#     characters, number forms) before they are compared
+#   - pharmpy's missing data token (DataInfo.missing_data_token / conf.missing_data_token,
+#     default -99): an item that is exactly the token is a missing value (NaN); NaN compares
+#     false with everything except through "not equal"
 
 PARSING_PY = 'src/pharmpy/model/external/nonmem/parsing.py'
 
@@ -1391,6 +1413,21 @@ def _ref_fortran(s):
         raise _RefError(f'{s!r} is not a number')
     exp = m.group(3) or m.group(4) or '0'
     return float(f'{m.group(1)}{m.group(2)}e{exp}')
+
+
+MISSING_DEFAULT = '-99'  # documented default of pharmpy's missing data token
+
+
+def _ref_item(item, null_value, missing):
+    """Value of one data item by the item rules: NULL -> NULL value, at most 24 characters,
+    the missing data token -> NaN, otherwise a number in one of the documented forms"""
+    if item in ('', '.'):
+        item = null_value
+    if len(item) > 24:
+        raise _RefError('item longer than 24 characters')
+    if item == missing:
+        return math.nan
+    return _ref_fortran(item)
 
 
 def _ref_split(line):
@@ -1436,7 +1473,7 @@ _NUM_OPS = {'.EQN.': 'eq', '.NEN.': 'ne', '.LT.': 'lt', '<': 'lt', '.GT.': 'gt',
             '.LE.': 'le', '<=': 'le', '.GE.': 'ge', '>=': 'ge'}
 
 
-def _ref_condition(flt, colnames, null_value):
+def _ref_condition(flt, colnames, null_value, missing=MISSING_DEFAULT):
     m = _REF_FILTER.fullmatch(flt)
     if not m:
         raise AssertionError(f'reference cannot parse filter {flt!r}')
@@ -1454,10 +1491,7 @@ def _ref_condition(flt, colnames, null_value):
     num = float(val)
 
     def cond(row):
-        item = row[k]
-        if item in ('', '.'):
-            item = null_value
-        return cmp(_ref_fortran(item), num, _NUM_OPS[op])
+        return cmp(_ref_item(row[k], null_value, missing), num, _NUM_OPS[op])
 
     return cond
 
@@ -1471,6 +1505,7 @@ def _ref_read(spec):
     null_value = spec.get('null_value')
     null_value = '0' if null_value is None else str(null_value)
     ic = spec.get('ignore_character') or '#'
+    missing = spec.get('missing') or MISSING_DEFAULT
     lines = text.split('\n')
     if lines and lines[-1] == '':
         lines = lines[:-1]
@@ -1497,7 +1532,7 @@ def _ref_read(spec):
             rows.append((items + [''] * (m - len(items)))[:m])
         for kind in ('ignore', 'accept'):
             for flt in spec.get(kind) or []:
-                cond = _ref_condition(flt, colnames, null_value)
+                cond = _ref_condition(flt, colnames, null_value, missing)
                 if kind == 'ignore':
                     rows = [r for r in rows if not cond(r)]
                 else:
@@ -1509,11 +1544,7 @@ def _ref_read(spec):
                 if dropped:
                     o.append(item)
                     continue
-                if item in ('', '.'):
-                    item = null_value
-                if len(item) > 24:
-                    raise _RefError('item longer than 24 characters')
-                o.append(_ref_fortran(item))
+                o.append(_ref_item(item, null_value, missing))
             out.append(o)
     except _RefError as e:
         return ('error', str(e))
@@ -1537,6 +1568,8 @@ def _real_read(spec):
         kwargs['ignore'] = list(spec['ignore'])
     if spec.get('accept'):
         kwargs['accept'] = list(spec['accept'])
+    if spec.get('missing') is not None:
+        kwargs['missing_data_token'] = spec['missing']
     try:
         df = read_nonmem_dataset(io.StringIO(spec['text']), colnames=list(spec['colnames']),
                                  **kwargs)
@@ -1555,6 +1588,15 @@ _READ_CLAUSES = {
     'filter': 'IGNORE/ACCEPT filters are applied in order with text or numeric comparison as the '
               'operator dictates',
 }
+
+
+def _same_numbers(a, b):
+    """Equal lists of floats, a missing value (NaN) equal to a missing value"""
+    return len(a) == len(b) and all(
+        x == y or (isinstance(x, float) and isinstance(y, float) and math.isnan(x)
+                   and math.isnan(y))
+        for x, y in zip(a, b)
+    )
 
 
 def _compare_table(df, spec, rows):
@@ -1580,13 +1622,48 @@ def _compare_table(df, spec, rows):
                 g = [float(x) for x in got]
             except (TypeError, ValueError):
                 return f'column {c} is not numeric: {got}'
-            if g != exp:
+            if not _same_numbers(g, exp):
                 return f'column {c}: {g} expected {exp}; table {df.values.tolist()} expected {rows}'
     return None
 
 
 def _read_case(spec):
     """One read_nonmem_dataset case -> list of (fid, clause, detail)"""
+    r = _read_case1(spec)
+    if r and spec['fam'] == 'filter' and (spec.get('ignore') or spec.get('accept')):
+        # the filter clause is about the rows that are kept: when the same file is already
+        # mis-read without any filter the failure belongs to the clause of that rule
+        plain = {k: v for k, v in spec.items() if k not in ('ignore', 'accept')}
+        plain['fam'] = 'tok'
+        r0 = _read_case1(plain)
+        if r0:
+            return r0
+    return r
+
+
+def _filter_class(spec):
+    """Class of a filter case used to key the clause: a text operator (.EQ./.NE.) applied to
+    a column in which some row has a NULL item (".", empty, or absent because the row is
+    short) - docs/NONMEM.rst: NULLs are inserted after the filtering, a filter cannot match
+    a NULL"""
+    for flt in (spec.get('ignore') or []) + (spec.get('accept') or []):
+        m = _REF_FILTER.fullmatch(flt)
+        if not m or m.group(2) not in _TEXT_OPS:
+            continue
+        k = spec['colnames'].index(m.group(1))
+        for ln in spec['text'].split('\n'):
+            if ln == '':
+                continue
+            try:
+                items = _ref_split(ln)
+            except _RefError:
+                continue
+            if (items[k] if k < len(items) else '') in ('', '.'):
+                return ' (text comparison with a NULL item)'
+    return ''
+
+
+def _read_case1(spec):
     from pharmpy.model import DatasetError
 
     ref = _ref_read(spec)
@@ -1594,6 +1671,8 @@ def _read_case(spec):
         return None
     fid = f'{DATASET_PY}:read_nonmem_dataset'
     clause = _READ_CLAUSES[spec['fam']]
+    if spec['fam'] == 'filter':
+        clause += _filter_class(spec)
     real = _real_read(spec)
     shown = {k: v for k, v in spec.items() if k != 'fam' and v is not None}
     if real[0] == 'error':
@@ -1737,6 +1816,41 @@ def _enumerate_reading(tier):
                                 fl.reverse()
                             yield {'fam': 'filter', 'text': text, 'colnames': ['A', 'B'],
                                    'ignore': fl}
+    yield from _enumerate_null_filters(tier)
+
+
+_B_ITEMS = [
+    # forms of the item of the filter column B in a row "a,b" (None: the row is short)
+    '5', '0', '7.0', '-99', '.', '', None, '0' * 23 + '5', '0' * 24 + '5',
+]
+_B_OPS = ['.EQN.', '.NEN.', '.LT.', '<', '.GT.', '>', '.LE.', '<=', '.GE.', '>=', '.EQ.', '.NE.']
+
+
+def _b_row(rowno, item):
+    a = str(10 * rowno + 1)
+    return a if item is None else f'{a},{item}'
+
+
+def _enumerate_null_filters(tier):
+    """IGNORE / ACCEPT on the second column B of files whose B items are plain numbers, NULL
+    items ("." and empty), missing because the row is short, the missing data token, or
+    numbers of 24 / 25 characters; every numeric operator spelling (and .EQ./.NE.) x
+    comparison values 0, 5, 7, -99 x NULL value default / 7; thorough: also three-row files
+    over the first 7 forms, and the two-row files with the missing data token set to 5"""
+    thorough = tier == 'thorough'
+    for n, missing in ((2, None), (3, None), (2, '5')) if thorough else ((2, None),):
+        items = _B_ITEMS if n == 2 else _B_ITEMS[:7]
+        for its in itertools.product(items, repeat=n):
+            text = ''.join(_b_row(i, it) + '\n' for i, it in enumerate(its))
+            for op in _B_OPS:
+                for val in ('0', '5', '7', '-99'):
+                    for nv in (None, '7'):
+                        for kind in ('ignore', 'accept'):
+                            spec = {'fam': 'filter', 'text': text, 'colnames': ['A', 'B'],
+                                    'null_value': nv, kind: [f'B{op}{val}']}
+                            if missing is not None:
+                                spec['missing'] = missing
+                            yield spec
 
 
 def _read_work(chunk):
@@ -1797,6 +1911,7 @@ def _number_work(prefixes_and_len):
     prefixes, maxlen = prefixes_and_len
     n = nontriv = 0
     best = {}
+    allf = {}  # key -> every failing string of this job in enumeration order (capped)
     for prefix in prefixes:
         for total in range(len(prefix), maxlen + 1):
             if total == 0:
@@ -1811,7 +1926,10 @@ def _number_work(prefixes_and_len):
                     rank = (len(s), s)
                     if key not in best or rank < best[key][0]:
                         best[key] = (rank, s, detail)
-    return n, nontriv, best
+                    lst = allf.setdefault(key, [])
+                    if len(lst) < ALSO_CAP:
+                        lst.append(s)
+    return n, nontriv, best, allf
 
 
 # ---- reading through a model ($INPUT / $DATA) and the write/read cycle ---------------------
@@ -1853,6 +1971,11 @@ _DATA_OPTS = [
     ('IGNORE=(ID.EQ.2,WT.GT.5)', {'ignore': ['ID.EQ.2', 'WT.GT.5']}),
     ('ACCEPT=(ID.NE.2)', {'accept': ['ID.NE.2']}),
     ('ACCEPT=(WT.GE.3)', {'accept': ['WT.GE.3']}),
+    # numeric filters whose outcome depends on the value of a NULL / missing item
+    ('IGNORE=(WT.LE.0)', {'ignore': ['WT.LE.0']}),
+    ('ACCEPT=(WT.LT.3)', {'accept': ['WT.LT.3']}),
+    ('NULL=7 IGNORE=(WT.EQN.7)', {'null_value': '7', 'ignore': ['WT.EQN.7']}),
+    ('ACCEPT=(WT.NEN.6)', {'accept': ['WT.NEN.6']}),
 ]
 
 _DATA_TEXTS = [
@@ -1860,6 +1983,8 @@ _DATA_TEXTS = [
     '1 1.5 3\n2 . 6\n3,4D0,9\n',
     '#c\n1,,3\n2,2.5\n',
     '1\t1-1\t3\t8\n2\t2.5\t6\t9\n',
+    # plain numbers only; a short row, the missing data token and a NULL in the last column
+    '1,1.5,3\n2,2.5\n3,3.5,-99\n4,4.5,6\n5,5.5,\n',
 ]
 
 
@@ -1925,7 +2050,7 @@ def _model_read_case(spec, tmpdir):
         except (TypeError, ValueError):
             got = df[name].tolist()
         exp = [r[k] for r in rows]
-        if got != exp:
+        if not _same_numbers(got, exp):
             return [(fid, clause, f'column {name}: {got} expected {exp} for {shown}')]
     extra = [c for c in df.columns if c not in [n for n in colnames if n is not None]
              and not str(c).startswith('_DROP')]
@@ -2018,6 +2143,108 @@ def _roundtrip_case(spec, tmpdir):
     return fails
 
 
+# ---- write/read cycle of a model whose $DATA has options ------------------------------------
+#
+# A model read from code with row filters (IGNORE/ACCEPT lists), NULL or IGNORE=c options gets a
+# NEW dataset through the API.  Whatever the order in which the dataset and the code are written,
+# the model that is read back must have exactly the new dataset: the old row filters described the
+# old file and must not be applied to the written one.
+
+_CYCLE_DATA = [
+    # (columns, rows): rows of the new dataset; several of them satisfy the old filters
+    (['ID', 'DV', 'WT'], [[1, 1.5, 3.0], [2, 2.5, 6.0], [3, 3.5, 9.0]]),
+    (['ID', 'DV', 'WT'], [[1, 0.5, 0.0], [2, 7.0, 3.0], [4, 2.0, 7.0], [5, 3.0, 2.5]]),
+    (['ID', 'TIME', 'DV'], [[1, 0.0, 1.5], [2, 1.0, 2.5]]),
+    (['ID', 'DV', 'WT', 'AGE'], [[2, 1.5, 3.0, 30.0], [3, 2.5, 6.0, 40.0]]),
+]
+_CYCLE_STEPS = [
+    # the order of the API calls between replace(dataset=...) and read_model
+    ('write_csv', 'write_model'),
+    ('write_model',),
+    ('update_source', 'write_csv', 'write_model'),
+    ('write_csv', 'update_source', 'write_model'),
+]
+_CYCLE_BASE = {}
+
+
+def _cycle_base(opt):
+    if opt not in _CYCLE_BASE:
+        from pharmpy.model import Model
+
+        code = _MODEL_CODE.format(input='ID DV WT',
+                                  data=('none.csv ' + _DATA_OPTS[opt][0]).strip())
+        _CYCLE_BASE[opt] = Model.parse_model_from_string(code)
+    return _CYCLE_BASE[opt]
+
+
+def _enumerate_cycles(tier):
+    for opt in range(len(_DATA_OPTS)):
+        for data in range(len(_CYCLE_DATA)):
+            for steps in range(len(_CYCLE_STEPS)):
+                yield {'fam': 'cycle', 'opt': opt, 'data': data, 'steps': steps}
+
+
+def _cycle_case(spec, tmpdir):
+    from pharmpy.modeling import read_model, write_csv, write_model
+
+    fid = f'{WRITE_CSV_PY}:write_csv'
+    clause = ('a new dataset given to a model whose $DATA has IGNORE/ACCEPT, NULL or IGNORE=c '
+              'options is read back unchanged through the generated code, in whatever order the '
+              'dataset and the code are written (the old row filters are not applied to it)')
+    columns, rows = _CYCLE_DATA[spec['data']]
+    df = pd.DataFrame({c: [r[k] for r in rows] for k, c in enumerate(columns)})
+    snap = df.copy(deep=True)
+    steps = _CYCLE_STEPS[spec['steps']]
+    d = tempfile.mkdtemp(dir=tmpdir)
+    shown = (f'$DATA options {_DATA_OPTS[spec["opt"]][0]!r}, new dataset '
+             f'{df.to_dict(orient="list")}, calls replace(dataset=...) -> {" -> ".join(steps)} '
+             f'-> read_model')
+    code = None
+    try:
+        model = _cycle_base(spec['opt']).replace(dataset=df)
+        for step in steps:
+            if step == 'write_csv':
+                model = write_csv(model, path=os.path.join(d, 'data.csv'), force=True)
+            elif step == 'update_source':
+                model = model.update_source()
+            else:
+                model = write_model(model, os.path.join(d, 'run1.mod'), force=True)
+        with open(os.path.join(d, 'run1.mod')) as fh:
+            code = fh.read()
+        back = read_model(os.path.join(d, 'run1.mod')).dataset
+    except Exception as e:  # noqa: BLE001
+        datarec = [ln for ln in (code or '').split('\n') if ln.startswith('$DATA')]
+        return [(fid, f'no internal error [{type(e).__name__}]',
+                 f'{type(e).__name__}: {e} for {shown}; generated {datarec}')]
+    fails = []
+    if not _same_df(df, snap):
+        fails.append((fid, 'the dataset of the model is not modified', shown))
+    ok = isinstance(back, pd.DataFrame) and list(back.columns) == list(df.columns)
+    ok = ok and len(back) == len(df)
+    if ok:
+        for c in df.columns:
+            try:
+                x = [float(v) for v in back[c].tolist()]
+            except (TypeError, ValueError):
+                ok = False
+                break
+            if not _same_numbers(x, [float(v) for v in df[c].tolist()]):
+                ok = False
+    if not ok:
+        got = back.to_dict(orient='list') if isinstance(back, pd.DataFrame) else repr(back)
+        datarec = [ln for ln in code.split('\n') if ln.startswith('$DATA')]
+        fails.append((fid, clause, f'read back {got} for {shown}; generated {datarec}'))
+    return fails
+
+
+def _file_case(spec, tmpdir):
+    if spec['fam'] == 'model':
+        return _model_read_case(spec, tmpdir)
+    if spec['fam'] == 'cycle':
+        return _cycle_case(spec, tmpdir)
+    return _roundtrip_case(spec, tmpdir)
+
+
 def _file_work(chunk):
     warnings.filterwarnings('ignore')
     _single_thread()
@@ -2026,10 +2253,7 @@ def _file_work(chunk):
     try:
         for idx, spec in chunk:
             try:
-                if spec['fam'] == 'model':
-                    r = _model_read_case(spec, tmpdir)
-                else:
-                    r = _roundtrip_case(spec, tmpdir)
+                r = _file_case(spec, tmpdir)
             except Exception as e:  # noqa: BLE001
                 import traceback
 
@@ -2052,25 +2276,37 @@ def bounded_dataset_reading(tier='quick'):
     from pharmpy.model.external.nonmem import dataset as _ds  # noqa: F401
 
     _roundtrip_base()
+    for opt in range(len(_DATA_OPTS)):
+        _cycle_base(opt)  # parsed once, inherited by the forked workers
     maxlen = 5 if tier == 'thorough' else 4
     best = {}
+    also = {}
     cases = nontriv = 0
 
     def record(fid, clause, rank, case, detail):
         key = (fid, clause)
         if key not in best or rank < best[key][0]:
             best[key] = (rank, case, detail)
+        lst = also.setdefault(key, [])
+        if len(lst) < ALSO_CAP:
+            lst.append({'spec': case, 'fid': fid, 'clause': clause})
 
     # A: convert_fortran_number
     prefixes = [a + b for a in _NUM_ALPHABET for b in _NUM_ALPHABET]
     jobs = [([p], maxlen) for p in prefixes] + [(list(_NUM_ALPHABET), 1)]
     ctx = multiprocessing.get_context('fork')
     with ctx.Pool(NPROC) as pool:
-        for n, nt, b in pool.map(_number_work, jobs, chunksize=8):
+        for n, nt, b, allf in pool.map(_number_work, jobs, chunksize=8):
             cases += n
             nontriv += nt
             for (fid, clause), (rank, s, detail) in b.items():
-                record(fid, clause, rank, {'fam': 'number', 's': s}, detail)
+                key = (fid, clause)
+                if key not in best or rank < best[key][0]:
+                    best[key] = (rank, {'fam': 'number', 's': s}, detail)
+            for (fid, clause), strings in allf.items():
+                lst = also.setdefault((fid, clause), [])
+                for s in strings[:ALSO_CAP - len(lst)]:
+                    lst.append({'spec': {'fam': 'number', 's': s}, 'fid': fid, 'clause': clause})
     # B: read_nonmem_dataset
     specs = list(_enumerate_reading(tier))
     for chunk in _run_pool(_read_work, list(enumerate(specs)), 400):
@@ -2081,8 +2317,9 @@ def bounded_dataset_reading(tier='quick'):
             nontriv += 1
             for fid, clause, detail in r:
                 record(fid, clause, _spec_size(specs[idx]) + (idx,), specs[idx], detail)
-    # C, D: through a model
-    fspecs = list(_enumerate_model_reads(tier)) + list(_enumerate_roundtrip(tier))
+    # C, D, E: through a model
+    fspecs = (list(_enumerate_model_reads(tier)) + list(_enumerate_roundtrip(tier))
+              + list(_enumerate_cycles(tier)))
     for chunk in _run_pool(_file_work, list(enumerate(fspecs)), 12):
         for idx, r in chunk:
             if r is None:
@@ -2095,6 +2332,7 @@ def bounded_dataset_reading(tier='quick'):
     for (fid, clause), (rank, case, detail) in sorted(best.items()):
         fails.append({'fid': fid, 'clause': clause, 'detail': str(detail)[:700],
                       'case': {'spec': case, 'fid': fid, 'clause': clause},
+                      'also': also[(fid, clause)][:ALSO_CAP],
                       'replay_fn': 'bounded_dataset_reading_replay'})
     bound = (
         'convert_fortran_number on every string of length <=%d over "0123456789+-.dDeE"; '
@@ -2106,10 +2344,19 @@ def bounded_dataset_reading(tier='quick'):
         'lines x IGNORE=c in {default,#,I,@} x final newline; every <=3 column row over 5 items '
         '(number, text, 25 and 24 characters, ".") x every DROP pattern; every IGNORE/ACCEPT '
         'operator (15 spellings) x 4 values x 25 two-row files and two-filter sequences; '
+        'every %s file "a,b" whose second item is one of %d forms (plain numbers, ".", '
+        'empty, absent because the row is short, the missing data token -99, numbers of 24 and 25 '
+        'characters) x IGNORE/ACCEPT on that column with 12 operator spellings x values '
+        '0/5/7/-99 x NULL value default/7; '
         '%d $INPUT forms x %d $DATA option sets x %d files read through a model; write_csv + '
-        'write_model + read_model on 2-row datasets over %d float and %d integer values'
-        % (maxlen, len(_INPUTS), len(_DATA_OPTS), len(_DATA_TEXTS) + 1, len(_RT_FLOATS),
-           len(_RT_INTS))
+        'write_model + read_model on 2-row datasets over %d float and %d integer values; '
+        'a model with each of the %d $DATA option sets (IGNORE/ACCEPT lists, NULL, IGNORE=c) '
+        'given one of %d new datasets, written in %d orders of write_csv / update_source / '
+        'write_model and read back'
+        % (maxlen, 'two-row (also with missing data token 5; and three-row over 7 forms)'
+           if tier == 'thorough' else 'two-row',
+           len(_B_ITEMS), len(_INPUTS), len(_DATA_OPTS), len(_DATA_TEXTS) + 1, len(_RT_FLOATS),
+           len(_RT_INTS), len(_DATA_OPTS), len(_CYCLE_DATA), len(_CYCLE_STEPS))
     )
     samples = [repr(specs[0])[:160], repr(specs[len(specs) // 2])[:160], repr(fspecs[-1])[:160]]
     return {'cases': cases, 'nontrivial': nontriv, 'bound': bound, 'samples': samples,
@@ -2121,13 +2368,10 @@ def bounded_dataset_reading_replay(rp):
     spec = c['spec']
     if spec['fam'] == 'number':
         r = _number_case(spec['s'])
-    elif spec['fam'] in ('model', 'roundtrip'):
+    elif spec['fam'] in ('model', 'roundtrip', 'cycle'):
         tmpdir = tempfile.mkdtemp(prefix='b_data_')
         try:
-            if spec['fam'] == 'model':
-                r = _model_read_case(spec, tmpdir)
-            else:
-                r = _roundtrip_case(spec, tmpdir)
+            r = _file_case(spec, tmpdir)
         finally:
             shutil.rmtree(tmpdir, ignore_errors=True)
     else:
